@@ -15,7 +15,7 @@ for S in "${SEEDS[@]}"; do
   rm -rf $SAVE; mkdir -p /verif/.work; cp -r /verif/evidence $SAVE
   CAUGHT=""
   for C in $CHECKS; do
-    OUTP=$(VERIF_CONFIG=full ./check $C quick 2>&1); rc=$?
+    OUTP=$(VERIF_CONFIG=full timeout 900 ./check $C quick 2>&1); rc=$?
     if [ $rc -eq 1 ] && echo "$OUTP" | grep -q "^VIOLATION property=$C"; then CAUGHT="$CAUGHT $C"; 
     elif [ $rc -ne 0 ]; then CAUGHT="$CAUGHT $C(rc=$rc)"; fi
   done
@@ -26,3 +26,5 @@ for S in "${SEEDS[@]}"; do
   echo "$S: ${CAUGHT# }"
 done
 sort -o $OUT $OUT
+# leave a binary built from the clean tree behind
+VERIF_CONFIG=full ./check build >/dev/null 2>&1
